@@ -329,7 +329,7 @@ class C12(Check):
     title = "Expression simplification preserves the expression's value"
     functions = ["Expression::into_simplified", "simplification::by_hand::run", "Simplifier::{simplify,simplify_infix,simplify_prefix,simplify_function_call,size,smaller}", "mul_matches",
                  "is_zero", "is_one", "expression::interned::*"]
-    assumptions = ["expression trees of depth <= D: every node kind, operator and function enumerated; number literals from {0, 1, -1, 2, 0.5}; variable / region names solver-chosen",
+    assumptions = ["expression trees of depth <= D: every node kind, operator and function enumerated; number literals from {0, 1, -1, 2, 0.5} (plus 2^-20, -(2^-20), 1 + 2^-20 in the small-literal shape); variable / region names solver-chosen",
                    "value semantics of the oracle: exact complex arithmetic over the reals for + - * /, the five functions uninterpreted, ^ uninterpreted with the facts x^0 = 1, x^1 = x, "
                    "1^x = 1, 0^x = 0 (x != 0); equality of the two values under every assignment on which the original has a finite value (denominators non-zero, 0^x only for x = 0 or Re x > 0) "
                    "is decided by z3 (nonlinear real arithmetic); exact equality implies equality up to floating-point rounding",
